@@ -1,5 +1,5 @@
 """C01 — shaping is total: no panic, abort or hang; output length bounded by max(64 n, 16384)."""
-import os, re, struct
+import os, re, struct, unicodedata
 import vlib, corpus, bufgen
 
 MODULE = "RbModel.Props.C01"
@@ -408,7 +408,9 @@ RULES = {
                         "layout tables, AAT morx / kerx / trak fonts as they are and with an added `feat` table exposing every mapped AAT "
                         "feature type; generated morx+feat fonts whose OpenType tags really switch subtables) x input cluster values "
                         "drawn from {0, 1, u32::MAX, u32::MAX-1, 2^31, 2^31+-1, 0xFFFF, 0x10000} mixed with ordinary ones (all equal, "
-                        "ascending to / from an extreme, descending, single positions replaced, random, sorted) x 0-4 user features whose "
+                        "ascending to / from an extreme, descending, single positions replaced, random, sorted; Hangul also generated jamo "
+                        "strings; syllabic texts also cut right after a virama) x 0-4 user features (common tags, the tags of the font's own "
+                        "GSUB / GPOS FeatureLists, the tags the AAT map knows, the tags the dedicated shaper allocates itself) whose "
                         "range bounds come from the same set and from the input clusters +-1 (global, start == end, start > end, end == "
                         "start + 1, overlapping) x 4 directions x 3 cluster levels; both builds; oracle: no panic / abort / hang, "
                         "len <= max(64n,16384)",
@@ -760,6 +762,14 @@ XTAGS_OT = ["liga", "kern", "calt", "ccmp", "mark", "mkmk", "curs", "init", "med
             "frac", "numr", "dnom", "akhn", "rphf", "pref", "blwf", "half", "pstf", "abvs", "blws", "psts", "haln", "pres", "ljmo",
             "vjmo", "tjmo", "vert", "rand", "aalt", "trak", "dist", "abvm", "blwm", "rtlm", "ltrm", "ss01", "zero"]
 
+# the tags the dedicated shapers allocate masks for themselves: a user feature of the same name changes which glyphs carry the mask
+XTAGS_FAMILY = {
+    "syllabic": ["nukt", "akhn", "rphf", "rkrf", "pref", "blwf", "abvf", "half", "pstf", "vatu", "cjct", "cfar", "init", "pres", "abvs",
+                 "blws", "psts", "haln", "locl", "ccmp"],
+    "arabic": ["init", "medi", "fina", "isol", "med2", "fin2", "fin3", "rlig", "calt", "mset", "stch", "ccmp", "locl", "rclt"],
+    "hangul": ["ljmo", "vjmo", "tjmo", "ccmp", "calt"],
+}
+
 XFAMILIES = ["ot", "arabic", "hangul", "syllabic", "fallback", "aat", "aat+feat", "aat-generated"]
 
 
@@ -842,6 +852,29 @@ def font_tables(path):
     return _tables[path]
 
 
+_ftags = {}
+
+
+def layout_feature_tags(path):
+    """the feature tags of the font's own GSUB and GPOS FeatureLists (first face)"""
+    if path not in _ftags:
+        tags = set()
+        try:
+            data = open(path, "rb").read()
+            for t, _, o, l in sfnt_dir(data):
+                if t in ("GSUB", "GPOS") and l >= 10 and o + l <= len(data):
+                    fl = o + struct.unpack(">H", data[o + 6:o + 8])[0]
+                    if fl + 2 > o + l: continue
+                    n = struct.unpack(">H", data[fl:fl + 2])[0]
+                    for i in range(min(n, (o + l - fl - 2) // 6)):
+                        tg = data[fl + 2 + 6 * i:fl + 6 + 6 * i]
+                        if all(0x21 <= b < 0x7f for b in tg): tags.add(tg.decode("latin1"))
+        except (OSError, struct.error):
+            pass
+        _ftags[path] = sorted(tags)
+    return _ftags[path]
+
+
 def with_feat(path, feat_body):
     """copy of an AAT corpus font with a `feat` table that exposes every AAT feature type the crate maps OpenType tags to"""
     p = os.path.join(cache_dir(), "feat+" + os.path.basename(path))
@@ -905,9 +938,20 @@ def extreme_lines(shim, r, per_family, n_gen, stat):
         cases = src[fam]
         stat.setdefault("families", {})[fam] = {"sources": len(cases), "fonts": len({c[0] for c in cases})}
         if not cases: continue
-        for _ in range(per_family):
+        for _ in range(per_family * (4 if fam == "syllabic" else 1)):     # four shapers and ~50 scripts share this family
             font, idx, cps, script, tags = r.choice(cases)
-            if r.chance(1, 4) and len(cps) > 1:
+            if fam in XTAGS_FAMILY and r.chance(1, 3):
+                tags = XTAGS_FAMILY[fam]
+            elif not fam.startswith("aat") and r.chance(1, 2):
+                tags = layout_feature_tags(font) or tags                # the features the font itself has
+            if fam == "hangul" and r.chance(1, 2):      # the corpus has three Hangul fixtures only: jamo / syllable / tone-mark strings
+                cps = [r.choice([r.range(0x1100, 0x1112), r.range(0x1161, 0x1175), r.range(0x11A8, 0x11C2), r.range(0xAC00, 0xD7A3),
+                                 0x302E, 0x302F, 0x115F, 0x1160]) for _ in range(r.range(1, 8))]
+            viramas = [i for i, c in enumerate(cps) if unicodedata.combining(chr(c)) == 9]
+            if viramas and r.chance(1, 3):              # a syllable left open at the end of the buffer: the text ends on a virama
+                e = r.choice(viramas) + 1
+                cps = cps[max(0, e - r.range(2, 6)):e]
+            elif r.chance(1, 4) and len(cps) > 1:
                 a = r.below(len(cps)); cps = cps[a:a + r.range(1, 6)]
             kind, cl = extreme_clusters(r, len(cps))
             feats, fkind = extreme_feats(r, tags, cl)
